@@ -81,8 +81,28 @@ def cases(draw, max_n):
     }
 
 
+@st.composite
+def chain_cases(draw):
+    """Very tall trees: a matrix product chain v-M-M-...-M-v of hundreds of
+    tensors contracted sequentially (tree height n-1).  The matrices are 0/1
+    matrices with at most one 1 per row, so the exact product stays 0/1."""
+    n = draw(st.sampled_from([40, 120, 300, 520, 700]))
+    return {
+        "kind": "chain",
+        "n": n,
+        "mats": draw(st.lists(st.integers(0, 5), min_size=8, max_size=8)),
+        "direction": draw(st.sampled_from(["left", "right", "middle_out"])),
+        "sort": draw(st.sampled_from([None, "flops", "size", "root", "leaves"])),
+        "order": draw(st.sampled_from([None, "dfs", "surface_order"])),
+        "prefer_einsum": draw(st.booleans()),
+        "entry": draw(st.sampled_from(["tree", "tree", "array_contract"])),
+    }
+
+
 def strategy(tier, sub=None):
-    return st.one_of(cases(6), cases(6), cases(12))
+    return st.integers(0, 39).flatmap(
+        lambda i: chain_cases() if i == 0 else st.one_of(cases(6), cases(6), cases(12))
+    )
 
 
 def budget(tier, sub=None):
@@ -138,9 +158,66 @@ def compare(got, expect, out_shape, what):
     return []
 
 
+MATS = [
+    [[1, 0], [0, 1]], [[0, 1], [1, 0]], [[1, 0], [0, 0]], [[0, 1], [0, 0]], [[0, 0], [0, 1]], [[1, 0], [1, 0]],
+]
+
+
+def run_chain(spec):
+    import cotengra as ctg
+
+    n = spec["n"]
+    labs = [chr(0x4E00 + i) for i in range(n - 1)]
+    inputs = [(labs[0],)] + [(labs[i], labs[i + 1]) for i in range(n - 2)] + [(labs[n - 2],)]
+    sizes = {ix: 2 for ix in labs}
+    mats = spec["mats"]
+    arrays = [np.array([1.0, 1.0])]
+    for i in range(n - 2):
+        arrays.append(np.array(MATS[mats[i % len(mats)] % len(MATS)], dtype=float))
+    arrays.append(np.array([1.0, 0.0]) if mats[0] % 2 else np.array([1.0, 1.0]))
+    v = arrays[0]
+    for a in arrays[1:-1]:
+        v = v @ a
+    expect = np.asarray(v @ arrays[-1])
+    if spec["direction"] == "left":
+        ssa = [(0, 1)] + [(n + i, i + 2) for i in range(n - 2)]
+    elif spec["direction"] == "right":
+        ssa = [(n - 2, n - 1)] + [(n + i, n - 3 - i) for i in range(n - 2)]
+    else:
+        m = n // 2
+        ssa, cur, nxt, lo, hi = [(m - 1, m)], n, n + 1, m - 2, m + 1
+        while lo >= 0 or hi < n:
+            if lo >= 0:
+                ssa.append((cur, lo)); cur, nxt, lo = nxt, nxt + 1, lo - 1
+            if hi < n:
+                ssa.append((cur, hi)); cur, nxt, hi = nxt, nxt + 1, hi + 1
+    viol = []
+
+    def go():
+        tree = ctg.ContractionTree.from_path(inputs, (), sizes, ssa_path=ssa)
+        if spec["entry"] == "array_contract":
+            return ctg.array_contract(
+                arrays, inputs, (), optimize=tree.get_path(),
+                sort_contraction_indices=spec["sort"] is not None, cache_expression=False,
+            )
+        if spec["sort"] is not None:
+            tree.sort_contraction_indices(priority=spec["sort"])
+        return tree.contract(arrays, order=spec["order"], prefer_einsum=spec["prefer_einsum"])
+
+    ok, got = guarded(go)
+    what = f"chain of {n} tensors contracted {spec['direction']}, sort={spec['sort']}, entry={spec['entry']}"
+    if not ok:
+        viol.append(f"{what}: raised {got}")
+    else:
+        viol += compare(got, expect, (), what)
+    return Outcome(viol, True, ["kind=chain", f"n={n}", f"sort={spec['sort']}", f"direction={spec['direction']}"])
+
+
 def run_case(spec, sub=None):
     import cotengra as ctg
 
+    if spec.get("kind") == "chain":
+        return run_chain(spec)
     net, opts = spec["net"], spec["opts"]
     inputs = [tuple(t) for t in net["inputs"]]
     output = tuple(net["output"])
